@@ -172,7 +172,7 @@ func init() {
 			"out-of-range system-common arguments only need a well-formed message (statement)",
 			"loopback is observed through drivers/testdrv + midi.ListenTo with all listen options enabled",
 		},
-		Require: []string{"ctor_points", "loopback_deliveries", "accessor_calls", "out_of_range_points", "concurrent_ctor_points", "nil_pattern_calls", "conversations_with_replies_to_replies", "loopback_repeated_deliveries", "several_loopback_sessions", "appends_to_returned_messages", "kept_deliveries_rechecked", "loopback_sends_to_a_listener_without_options", "loopback_first_message_for_a_new_listener_on_the_same_port", "loopback_messages_behind_a_cut_off_message_of_the_same_status"},
+		Require: []string{"ctor_points", "loopback_deliveries", "accessor_calls", "out_of_range_points", "concurrent_ctor_points", "nil_pattern_calls", "conversations_with_replies_to_replies", "loopback_repeated_deliveries", "several_loopback_sessions", "appends_to_returned_messages", "kept_deliveries_rechecked", "loopback_sends_to_a_listener_without_options", "loopback_first_message_for_a_new_listener_on_the_same_port", "loopback_messages_behind_a_cut_off_message_of_the_same_status", "loopback_same_status_around_a_system_common_message"},
 		Run:     runC07,
 	})
 }
@@ -257,6 +257,20 @@ func runC07(c *mon.Ctx) {
 			c.Count("loopback_messages_behind_a_cut_off_message_of_the_same_status", 1)
 			if len(got) != 1 || !bytes.Equal(got[0], m) {
 				c.Violation("loopback-behind-cut-off-message:"+name, fmt.Sprintf("%s%v sent behind the first two bytes of the same message (cut off on the wire) arrived as %v", name, args, mon.HexList(toBytes(got))), args, mon.Hex(m), mon.HexList(toBytes(got)))
+				return
+			}
+		}
+		// the same channel message before and behind a system common message (song position, tune request, ...): the
+		// system common message has cancelled the running status on the wire, the second message arrives whole
+		if m[0] < 0xF0 && loopN%24 == 17 {
+			sc := [][]byte{{0xF2, 0x10, 0x20}, {0xF6}, {0xF3, 0x05}, {0xF1, 0x23}}[(loopN/24)%4]
+			lpRe.roundTrip(m)
+			g1 := append([]midi.Message(nil), lpRe.roundTrip(sc)...)
+			got = lpRe.roundTrip(m)
+			c.Count("loopback_sends", 3)
+			c.Count("loopback_same_status_around_a_system_common_message", 1)
+			if len(g1) != 1 || !bytes.Equal(g1[0], sc) || len(got) != 1 || !bytes.Equal(got[0], m) {
+				c.Violation("loopback-around-system-common:"+name, fmt.Sprintf("%s%v, then % X, then the same %s again: the system common message arrived as %v, the second %s as %v", name, args, sc, name, mon.HexList(toBytes(g1)), name, mon.HexList(toBytes(got))), args, mon.Hex(m), mon.HexList(toBytes(got)))
 				return
 			}
 		}
